@@ -449,6 +449,14 @@ class Ranges:
                 a = self._range_canon(lv[0], bb, None, use_facts, depth + 1)
                 b = self._range_canon(lv[1], bb, None, use_facts, depth + 1)
                 lo, hi = max(lo, a[0]), min(hi, b[1] - 1)
+            ei = self.enumerate_index_bound(c)
+            if ei is not None and depth < 6:
+                lo = max(lo, 0)
+                if ei != 'len':
+                    b = self.range_of(ei, bb, use_facts, depth + 1)
+                    hi = min(hi, b[1] - 1)
+                else:
+                    hi = min(hi, LEN_MAX - 1)
         if k == 'len':
             al = self.len_alias(c)
             if al is not None and depth < 6:
@@ -666,6 +674,37 @@ class Ranges:
         if o[0] == 'agg' and o[1].get('adt', '').endswith('ops::range::Range') and len(o[1]['ops']) == 2:
             return canon(self.B, o[1]['ops'][0]), canon(self.B, o[1]['ops'][1])
         return None
+
+    def enumerate_index_bound(self, c):
+        """c = the index component of an item yielded by `.enumerate()` (Some-payload .0 of Iterator::next):
+        the operand n of a `.take(n)` in the same adaptor chain (index < n), or 'len' when there is none (index < length)."""
+        if c[0] != 'place' or c[1][0] != 'call' or tuple(c[2]) != ('as:Some', '0', '0'):
+            return None
+        t = self.B.blocks[c[1][2]]['t']
+        if t['k'] != 'call' or not t['args'] or not any(n.endswith('::next') for n in callee_names(t)):
+            return None
+        cur = t['args'][0]
+        seen_enum, take_n, skipped = False, None, False
+        for _ in range(8):
+            o = self.B.origin(cur)
+            if o[0] != 'call' or not o[1]:
+                break
+            ct = self.B.blocks[o[2]]['t']
+            nm = o[1].rsplit('::', 1)[-1]
+            if nm == 'enumerate':
+                seen_enum = True
+            elif nm == 'take' and len(ct['args']) > 1:
+                take_n = ct['args'][1]
+            elif nm in ('skip', 'rev', 'step_by', 'chain'):
+                skipped = True        # the index no longer starts at 0 / is no longer below the take() count
+            elif nm not in ('into_iter', 'iter', 'by_ref', 'copied', 'cloned', 'peekable', 'deref', 'iter_mut'):
+                break
+            if nm in ('iter', 'iter_mut', 'deref') or not ct['args']:
+                break
+            cur = ct['args'][0]
+        if not seen_enum:
+            return None
+        return take_n if (take_n is not None and not skipped) else 'len'
 
     def infeasible(self, bb):
         """True when the dominating conditions of bb are contradictory (some value has an empty range)."""
